@@ -833,6 +833,7 @@ func init() {
 		p.NReq = [2]int{3, 7}
 		p.PSIE, p.PErrReply, p.PReqCC, p.PMustReval, p.PNoCache = 0.6, 0.5, 0.5, 0.2, 0.15
 		p.URLs, p.PUnsafe, p.PValidators, p.PLocation, p.PRange = 1, 0.02, 0.7, 0.0, 0.0
+		p.PBodyFail = 0.1 // the reply that is set aside may have a body that cannot be read
 	})
 	profiles["urls"] = derive("urls", func(p *Profile) {
 		p.NReq = [2]int{5, 10}
